@@ -93,6 +93,9 @@ func checkC16(r *harness.Run) harness.Coverage {
 	docs := univ.Values(1, 2, univ.Js(univ.A6...), []string{"a", "b"})
 	docs = append(docs, univ.Js(`[[],[[]],{}]`, `{"a":[1,2,3],"b":["a","b"]}`, `{"a":[{"a":1,"b":"x"},{"a":2,"b":"y"}],"b":{"a":{},"b":[]}}`, `[0.5,-3,1e10,1e-10]`, `{"a":"é😀","b":"\u0000\""}`,
 		`{"a":"Infinity","b":"nan"}`, `["inf","-inf","NaN","+Inf","1e999","-1e999","1","x"]`, `{"a":["Infinity",1],"b":{"a":"-Infinity"}}`, `{"a":{},"b":[]}`, `{"a":[],"b":{}}`)...)
+	// whole numbers whose totals lie beyond 2^53 (a sum done in integers must still come back as a JSON number)
+	docs = append(docs, univ.Js(`{"a":[4503599627370496,4503599627370496,1],"b":[9007199254740992,1]}`, `[1000000000000000,1000000000000000,9000000000000000]`, `{"a":[1152921504606846976,1152921504606846976],"b":[1e18,2e18,4e18]}`,
+		`{"a":[-4611686018427387904,-4611686018427387904],"b":[9223372036854775807,1]}`, `[9007199254740993,9007199254740993]`)...)
 	// arrays above the size thresholds of "large input" fast paths, and nothing that survives a filter
 	bigObjs := make([]interface{}, 70)
 	bigNums := make([]interface{}, 70)
